@@ -1,6 +1,11 @@
 (* C12 model driver.  Input lines:
      <id> D <k> <lo1> <hi1> ... <lok> <hik> <s>      decode s with the codec of the k ranges
      <id> A <k> <lo1> <hi1> ... <code>               append_code
+     <id> W <k> <lo1> <hi1> ...                      walk_ranges (reported code space, before merging)
+     <id> M <k> <lo1> <hi1> ... <s>                  match_len of code_space_range (walk + merge) on s
+     <id> L <k> <lo1> <hi1> ... <nodes>              certified validator lin_ok on a node array of the
+                                                     implementation (3 bytes per node: bound, child hi, child lo)
+                                                     and on the model's own linearisation
    Output: <id> <observation> *)
 open Wire
 
@@ -12,15 +17,36 @@ let parse_ranges k fs =
       | _ -> failwith "bad ranges"
   in go k fs []
 
-let cache : (string, Codec.lnode list option) Hashtbl.t = Hashtbl.create 1024
+type built = {
+  tree : (BinNums.coq_N * Codec.tnode) list option;        (* None: NewCodec returns an error *)
+  nodes : Codec.lnode list option;                 (* None with a tree: panic in the lineariser *)
+}
 
-let codec_of key rs =
+let cache : (string, built) Hashtbl.t = Hashtbl.create 1024
+
+let build key rs =
   match Hashtbl.find_opt cache key with
   | Some c -> c
   | None ->
-    let c = Codec.codec rs in
+    let tree = Codec.new_codec_tree rs in
+    let (tree, nodes) =
+      match tree with
+      | None -> (None, None)
+      | Some t ->
+        (match Codec.linearize t with
+         | Codec.LOk nodes -> (Some t, Some nodes)
+         | Codec.LOverflow -> (None, None)            (* NewCodec returns errTooManyNodes: rejected *)
+         | Codec.LPanic -> (Some t, None)) in
+    let c = { tree; nodes } in
     if Hashtbl.length cache > 200000 then Hashtbl.reset cache;
     Hashtbl.add cache key c; c
+
+let nodes_of_hex (h : string) : Codec.lnode list =
+  let bs = Stdlib.List.map int_of_n (bytes_of_hex h) in
+  let rec go = function
+    | b :: hi :: lo :: rest -> { Codec.bound = n_of_int b; Codec.child = n_of_int ((hi * 256) + lo) } :: go rest
+    | _ -> []
+  in go bs
 
 let () =
   iter_lines (fun line ->
@@ -29,11 +55,18 @@ let () =
       let k = int_of_string k in
       let (rs, rest) = parse_ranges k rest in
       let key = Stdlib.String.concat " " (Stdlib.List.filteri (fun i _ -> i < 2 * k) (Stdlib.List.tl (Stdlib.List.tl (Stdlib.List.tl (words line))))) in
-      (match codec_of key rs with
+      let c = build key rs in
+      (match c.tree with
        | None -> Printf.printf "%s reject\n" id
-       | Some nodes ->
-         (match op, rest with
-          | "D", [s] ->
+       | Some t ->
+         (match op, rest, c.nodes with
+          | "L", [h], _ ->
+            let real = nodes_of_hex h in
+            Printf.printf "%s %s\n" id (string_of_bool (Codec.lin_ok real t));
+            Printf.printf "%s.model %s\n" id
+              (match c.nodes with None -> "panic" | Some nodes -> string_of_bool (Codec.lin_ok nodes t))
+          | _, _, None -> Printf.printf "%s panic\n" id
+          | "D", [s], Some nodes ->
             let s = bytes_of_hex s in
             (match Codec.decode nodes s with
              | None -> Printf.printf "%s panic\n" id
@@ -41,11 +74,15 @@ let () =
                let (sc, sv) = Codec.spec_decode rs s in
                Printf.printf "%s %s %d %s\n%s.spec %d %s\n" id (string_of_n code) (int_of_nat consumed)
                  (string_of_bool valid) id (int_of_nat sc) (string_of_bool sv))
-          | "A", [code] ->
+          | "A", [code], Some nodes ->
             (match Codec.append_code nodes (n_of_string code) with
              | None -> Printf.printf "%s panic\n" id
              | Some bs -> Printf.printf "%s %s\n" id (hex_of_bytes bs))
-          | "W", [] ->
+          | "M", [x], Some nodes ->
+            (match Codec.code_space_range nodes with
+             | None -> Printf.printf "%s panic\n" id
+             | Some rep -> Printf.printf "%s %d\n" id (int_of_nat (Codec.match_len rep (bytes_of_hex x))))
+          | "W", [], Some nodes ->
             (match Codec.walk_ranges nodes with
              | None -> Printf.printf "%s panic\n" id
              | Some rs ->
